@@ -120,3 +120,4 @@ let run inp obs : string option * string option =
      | "ws", (kind :: _) -> fail ("WebSocket client did not get a well-formed close frame: " ^ kind)
      | _ -> fail "unparsable C05 observation"))
   | _ -> (Some "unparsable C05 case", None)
+let () = Evalreg.register "C05" run
